@@ -51,6 +51,13 @@ def battery():
     m = ndx.array(shape=("N", "M"), dtype=ndx.int64)
     res["layout"] = ({"m": m}, {"r": ndx.roll(m, 2, axis=1), "c": ndx.cumulative_sum(m, axis=0), "q": ndx.sum(m, axis=-1, keepdims=True)})
     res["constants-only"] = ({}, {"k": ndx.asarray([1, 2, 3]) * 2, "n": ndx.nan + 1})
+    # Python scalar operands that compare (and hash) equal but denote different values or kinds: -0.0 / 0.0 / 0 / False,
+    # 1 / 1.0 / True -- as operands of placeholders and of constants (where the folded value shows the difference)
+    x = ndx.array(shape=("N",), dtype=ndx.float64)
+    k = ndx.asarray(np.array([1.0, -2.0]))
+    res["scalar-twins"] = ({"x": x}, {"m": x * -0.0, "d": x / -0.0, "a": ndx.atan2(x, -0.0), "p": x + 0.0, "t": x * True, "u": x * 1,
+                                      "km": k * -0.0, "kd": k / -0.0, "kp": k * 0.0, "kq": k / 0.0, "k1": k * 1, "kt": k * True, "kf": k * 1.0,
+                                      "w": ndx.where(x > 0, x, -0.0), "c": ndx.clip(x, min=-0.0)})
     return res
 
 
@@ -95,6 +102,17 @@ def history():
                         pass
     if cfg["history_len"]:
         sweep_args()
+        # the "twin" scalars as operands of unrelated arrays, in both orders of first use (per seed)
+        twins = [0.0, -0.0, 0, False, 1, 1.0, True, 2, 2.0, -1, -1.0]
+        rng.shuffle(twins)
+        for sc in twins:
+            for t in (f32, i32, lz32, lzi, ndx.asarray(np.array([1.0, -1.0]))):
+                for call in (lambda: t * sc, lambda: t + sc, lambda: sc - t, lambda: ndx.where(t > 0, t, sc), lambda: ndx.maximum(t, sc) if hasattr(ndx, "maximum") else None,
+                             lambda: t == sc, lambda: ndx.clip(t, min=sc), lambda: ndx.full_like(t, sc)):
+                    try:
+                        call()
+                    except Exception:
+                        pass
     for k in range(cfg["history_len"]):
         try:
             rng.choice(calls)()
